@@ -100,6 +100,9 @@ class _Model(DSOLModel):
     def h(self, k):
         self.ctl.on_handler(k)
 
+    def initial_hook(self):
+        self.ctl.on_initial_method()
+
 
 class _Listener(EventListener):
     def __init__(self, ctl):
@@ -150,6 +153,10 @@ class SimCtl:
         self.strategy = strategy
         self.sim.set_error_strategy(STRATEGY[strategy])
         self.model = (model_factory or _Model)(self.sim, self)
+        self.use_initial_method = bool(init_ops) and len(init_ops) >= 2 and hasattr(self.model, "initial_hook")
+        if self.use_initial_method:
+            self.sim.add_initial_method(self.model, "initial_hook")
+        self._init_rest, self._init_rest_done = [], True
         self.listener = _Listener(self)
         self.prog = dict(prog or {})
         self.init_ops = init_ops
@@ -234,8 +241,18 @@ class SimCtl:
         return res, info
 
     def on_construct(self):
+        # the model's initial scheduling is split: the first part in construct_model, the rest in a method registered
+        # once with add_initial_method (executed by every initialize after construct_model)
         ops = self.init_ops or []
-        self.construct_res = self.apply_ops(ops)
+        cut = len(ops) if not self.use_initial_method else (len(ops) + 1) // 2
+        self.construct_res = self.apply_ops(ops[:cut])
+        self._init_rest = ops[cut:]
+        self._init_rest_done = False
+
+    def on_initial_method(self):
+        self._init_rest_done = True
+        r = self.apply_ops(self._init_rest)
+        self.construct_res = (self.construct_res[0] + r[0], self.construct_res[1] + r[1])
 
     def on_handler(self, k):
         clk = self.conc.back(self.sim.simulator_time)
@@ -344,6 +361,8 @@ class SimCtl:
         c = self.conc
         repl = SingleReplication("rep", c.at(0), c.t(self.warm_t), c.t(self.end_t))
         e = self._call("Initialize", lambda: self.sim.initialize(self.model, repl), {"a": "Initialize", "ops": self.init_ops or []})
+        if e["res"] == "ok" and self.use_initial_method and not self._init_rest_done:
+            self.errors.append("initial_method_skipped: the method registered with add_initial_method was not executed by this initialize()")
         if e["res"] == "ok":
             self.warm_rank = self.next_rank + 1
             self.next_rank += 1
